@@ -80,6 +80,8 @@ func flip(sig []byte) []byte {
 	return out
 }
 
+var pollutions = []string{"dup", "dup-resigned", "reject", "foreign", "abnormal", "wronghash", "badsig", "foreignkeysig", "emptysig", "badkey", "reject-dup", "accept-flipped"}
+
 type arb struct {
 	k      key
 	normal bool
@@ -156,7 +158,9 @@ func main() {
 		accepted bool
 		good     map[string]bool
 	}
-	doConfirm := func(as []arb, kindHint string, clean bool) result {
+	doConfirm := func(as []arb, kindHint string, mode string) result {
+		// mode: "random" | "clean" | a single defect added to an otherwise clean confirmation
+		clean := mode != "random"
 		n := len(as)
 		arbs := buildArbiters(as, &params)
 		blockchain.DefaultLedger = &blockchain.Ledger{Arbitrators: arbs}
@@ -187,6 +191,10 @@ func main() {
 		sponsorKind := "arbiter"
 		sp := pool[59]
 		switch {
+		case mode == "sponsor-foreign":
+			sp, sponsorKind = foreign[rng.Intn(len(foreign))], "foreign"
+		case mode == "sponsor-abnormal" && len(abnormals) > 0:
+			sp, sponsorKind = abnormals[rng.Intn(len(abnormals))], "abnormal"
 		case len(normals) > 0 && (clean || rng.Chance(85)):
 			sp = normals[rng.Intn(len(normals))]
 		case len(abnormals) > 0 && rng.Chance(50):
@@ -203,7 +211,9 @@ func main() {
 			panic(err)
 		}
 		propSigValid := true
-		if clean {
+		if mode == "prop-badsig" {
+			prop.Sign, propSigValid, sponsorKind = flip(prop.Sign), false, sponsorKind+"+badsig"
+		} else if clean {
 		} else if rng.Chance(6) {
 			prop.Sign, propSigValid, sponsorKind = flip(prop.Sign), false, sponsorKind+"+badsig"
 		} else if rng.Chance(3) {
@@ -229,6 +239,13 @@ func main() {
 		if clean {
 			d = []int{maj + 1, maj + 1, maj + 2, len(normals)}[rng.Intn(4)]
 		}
+		if mode == "exact-majority" || mode == "dupfill" {
+			d = maj
+		}
+		fill := strings.HasPrefix(mode, "fill-") // too few good votes, topped up with defective votes by other arbiters
+		if fill {
+			d = maj - rng.Intn(2)
+		}
 		if d < 0 {
 			d = 0
 		}
@@ -252,10 +269,18 @@ func main() {
 		pollute := rng.Intn(4) // 0: none, else up to that many kinds
 		if clean {
 			pollute = 0
-			if rng.Chance(30) { // harmless pollution: exact duplicates / re-signed duplicates of good votes
+			if rng.Chance(30) || mode == "dupfill" { // harmless pollution: exact duplicates / re-signed duplicates of good votes
 				pollute = -1
 			}
 		}
+		single := ""
+		if strings.HasPrefix(mode, "one-") {
+			single, pollute = mode[4:], 1
+		}
+		if fill {
+			single, pollute = mode[5:], 1
+		}
+		fillNext := d
 		if pollute == -1 && len(votes) > 0 {
 			for c := 0; c < 1+rng.Intn(3); c++ {
 				g := votes[rng.Intn(len(votes))]
@@ -273,13 +298,23 @@ func main() {
 			kinds = append(kinds, "dup-of-good")
 		}
 		for p := 0; p < pollute; p++ {
-			kind := []string{"dup", "dup-resigned", "reject", "foreign", "abnormal", "wronghash", "badsig", "foreignkeysig", "emptysig", "badkey", "reject-dup", "accept-flipped"}[rng.Intn(12)]
+			kind := pollutions[rng.Intn(len(pollutions))]
 			cnt := 1 + rng.Intn(3)
+			if single != "" {
+				kind, cnt = single, 1
+			}
+			if fill {
+				cnt = maj + 1 - d + rng.Intn(2)
+			}
 			for c := 0; c < cnt; c++ {
 				var g gvote
 				pick := func() key {
 					if len(normals) == 0 {
 						return foreign[0]
+					}
+					if fill && fillNext < len(normals) {
+						fillNext++
+						return normals[perm[fillNext-1]]
 					}
 					if d > 0 && rng.Chance(60) {
 						return normals[perm[rng.Intn(d)]] // one that already voted
@@ -356,7 +391,8 @@ func main() {
 		allGood := true
 		var badKinds []string
 		for _, g := range votes {
-			ok := g.v.Accept && g.v.ProposalHash == ph && g.sigValid && isNormalArb[string(g.v.Signer)]
+			// "current arbiter" in the property statement = any member of the set, normal or not
+			ok := g.v.Accept && g.v.ProposalHash == ph && g.sigValid && inSet[string(g.v.Signer)]
 			if ok {
 				good[string(g.v.Signer)] = true
 			} else {
@@ -365,7 +401,7 @@ func main() {
 			}
 		}
 		quorum := 3*len(good) > 2*n
-		sponsorOK := isNormalArb[string(prop.Sponsor)] && propSigValid
+		sponsorOK := inSet[string(prop.Sponsor)]
 
 		// ---- Coq case
 		var arbTerms, voteTerms, vt []string
@@ -389,7 +425,7 @@ func main() {
 			keyReg.id(prop.Sponsor), hid, sigReg.id(prop.Sign), lib.CoqList(voteTerms), lib.CoqBool(sOK), lib.CoqBool(cOK)))
 		desc := map[string]interface{}{"op": "ConfirmSanityCheck+ConfirmContextCheck", "arbiters": n, "normal_arbiters": len(normals), "majority": maj,
 			"votes": len(votes), "distinct_good_signers": len(good), "pollution": kinds, "sponsor": sponsorKind,
-			"sanity_ok": sOK, "context_ok": cOK, "set": kindHint}
+			"sanity_ok": sOK, "context_ok": cOK, "set": kindHint, "mode": mode}
 		st.LogCase(run.Out, i, desc)
 		st.Count(fmt.Sprintf("cf:%d:%d:%d:%d:%v:%s:%v:%v", n, len(normals), len(votes), len(good), kinds, sponsorKind, sOK, cOK),
 			len(good) >= maj-1 && n > 0, "confirm:"+map[bool]string{true: "accepted", false: "rejected"}[accepted])
@@ -402,11 +438,14 @@ func main() {
 			if !quorum {
 				st.Fail("ConfirmCheck:accept-without-quorum", "confirmation accepted although at most two thirds of the arbiters cast a good vote", desc)
 			}
-			if !allGood {
-				st.Fail("ConfirmCheck:accept-with-bad-vote", "confirmation accepted although it contains a vote that is rejecting / for another proposal / badly signed / not by a current arbiter: "+strings.Join(badKinds, ","), desc)
+			if !allGood { // not a violation by itself (the quorum may not depend on that vote); the model forbids it, so the correspondence reports it
+				st.Hist["accepted-with-defective-vote:"+strings.Join(badKinds, ",")]++
 			}
 			if !sponsorOK {
-				st.Fail("ConfirmCheck:accept-bad-sponsor", "confirmation accepted although the sponsor is not a current arbiter or the proposal signature is invalid", desc)
+				st.Fail("ConfirmCheck:accept-foreign-sponsor", "confirmation accepted although the sponsor is not a current arbiter", desc)
+			}
+			if !propSigValid {
+				st.Fail("ConfirmCheck:accept-unsigned-proposal", "confirmation accepted although the proposal signature is invalid", desc)
 			}
 		}
 		return result{accepted, good}
@@ -430,7 +469,18 @@ func main() {
 	}
 	doSet := func(n int, hint string) {
 		as := mkSet(n)
-		rs := []result{doConfirm(as, hint, false), doConfirm(as, hint, false), doConfirm(as, hint, true), doConfirm(as, hint, true)}
+		rs := []result{doConfirm(as, hint, "random"), doConfirm(as, hint, "random"), doConfirm(as, hint, "clean"), doConfirm(as, hint, "clean")}
+		// near misses: a clean confirmation with exactly one defect
+		defects := []string{"sponsor-foreign", "sponsor-abnormal", "prop-badsig", "exact-majority", "dupfill"}
+		for _, k := range pollutions {
+			defects = append(defects, "one-"+k)
+			if k != "dup" && k != "dup-resigned" && k != "reject-dup" {
+				defects = append(defects, "fill-"+k)
+			}
+		}
+		for c := 0; c < 3; c++ {
+			rs = append(rs, doConfirm(as, hint, defects[rng.Intn(len(defects))]))
+		}
 		for a := 0; a < len(rs); a++ {
 			for b := a + 1; b < len(rs); b++ {
 				if rs[a].accepted && rs[b].accepted { // quorum intersection on what the implementation accepted
@@ -452,7 +502,7 @@ func main() {
 	for n := 1; n <= 36; n++ {
 		doSet(n, "sizes")
 	}
-	for i := 0; i < run.N(100, 4000); i++ {
+	for i := 0; i < run.N(60, 4000); i++ {
 		doSet(rng.Range(1, 36), "random")
 	}
 	st.Traces = st.Evals
